@@ -198,6 +198,8 @@ def check(ctx):
     from . import c04
     c04.group_rule(ctx, 'R20.7', r'^(<A as parse::ParseFromStr>::parse_from_str|TemplateProgram::(new|instantiate)|CompiledProgram::new|<error::RichError as std::fmt::Display>::fmt|error::Span::to_slice)$', 'text plumbing and error rendering: full call traces', 6)
     r_same_text(ctx)
+    # the positions an error is rendered at: line and column are built >= 1 (NonZeroUsize) from the text / the pest positions
+    c04.group_rule(ctx, 'R20.8', r"^(<error::Span as std::convert::From<&str>>::from|<error::Span as std::convert::From<&'a pest::iterators::Pair<'_, parse::Rule>>>::from|<error::RichError as std::convert::From<pest::error::Error<parse::Rule>>>::from)$", 'span construction from a text, a pest pair and a pest error (positions >= 1)', 3)
     r_conversions(ctx)
     r_provenance(ctx)
     r_render(ctx)
